@@ -952,3 +952,12 @@ def run(res, facts, tier):
     _run_c04_prev_repr(res, facts, tier)
     from . import c04_repr
     c04_repr.run_rule(res, facts, tier)
+
+
+_run_c04_prev_copyns = run
+
+
+def run(res, facts, tier):
+    _run_c04_prev_copyns(res, facts, tier)
+    from . import c01_copyns
+    c01_copyns.run_c04_rule(res, facts, tier)
